@@ -871,6 +871,64 @@ mod nbhd {
         }
         None
     }
+
+    /// "replacement of frag id, total length or CRC fields by any value": every frag id on every packet, every
+    /// total length on every first fragment, and on every end fragment the CRC with each single bit flipped, with
+    /// every value of its low half and with every value of its high half.
+    pub fn count_fields(pkts: &[Vec<u8>]) -> usize {
+        pkts.iter().map(|p| per_packet_fields(p)).sum()
+    }
+    fn per_packet_fields(p: &[u8]) -> usize {
+        match wire::header(p).map(|h| h.0) {
+            Some(Kind::First) => 256 + 65536,
+            Some(Kind::End) => 256 + 32 + 65536 + 65536,
+            Some(_) => 256,
+            None => 0,
+        }
+    }
+    pub fn member_fields(pkts: &[Vec<u8>], mut k: usize) -> Option<(Vec<Vec<u8>>, u64, String)> {
+        let mut out: Vec<Vec<u8>> = pkts.to_vec();
+        for (i, p) in pkts.iter().enumerate() {
+            let n = per_packet_fields(p);
+            if k >= n {
+                k -= n;
+                continue;
+            }
+            let q = &mut out[i];
+            if k < 256 {
+                if q.len() > 2 {
+                    q[2] = k as u8;
+                }
+                return Some((out, 7, format!("frag id of pkt {} set to {}", i, k)));
+            }
+            k -= 256;
+            match wire::header(p).map(|h| h.0) {
+                Some(Kind::First) => {
+                    if q.len() >= 5 {
+                        q[3] = (k >> 8) as u8;
+                        q[4] = k as u8;
+                    }
+                    return Some((out, 7, format!("total length of pkt {} set to {}", i, k)));
+                }
+                _ => {
+                    let n = q.len();
+                    if n >= 7 {
+                        if k < 32 {
+                            q[n - 4 + (31 - k) / 8] ^= 1 << (k % 8);
+                        } else if k < 32 + 65536 {
+                            let v = (k - 32) as u16;
+                            q[n - 2..].copy_from_slice(&v.to_be_bytes());
+                        } else {
+                            let v = (k - 32 - 65536) as u16;
+                            q[n - 4..n - 2].copy_from_slice(&v.to_be_bytes());
+                        }
+                    }
+                    return Some((out, 7, format!("crc of pkt {} variant {}", i, k)));
+                }
+            }
+        }
+        None
+    }
 }
 
 impl Scenario for RxSim {
@@ -923,13 +981,14 @@ impl Scenario for RxSim {
     }
 
     fn execute(&self, p: &Program, target: &str, st: &mut Stats) -> Option<Violation> {
-        let nb = p.cfg.get_u("nbhd") == 1;
+        let nbmode = p.cfg.get_u("nbhd");
+        let nb = nbmode == 1 || nbmode == 2;
         let variant = p.cfg.get_u("variant");
         if nb && variant == 0 {
             // enumerate the complete single-fault neighbourhood of the feed sequence
             let pkts: Vec<Vec<u8>> = p.ops.iter().filter(|o| o.name == "feed").map(|o| o.get_h("hex").to_vec()).collect();
-            let n = nbhd::count(&pkts);
-            st.inc("single_fault_neighbourhoods");
+            let n = if nbmode == 2 { nbhd::count_fields(&pkts) } else { nbhd::count(&pkts) };
+            st.inc(if nbmode == 2 { "field_value_neighbourhoods" } else { "single_fault_neighbourhoods" });
             let mut logx = 0u64;
             for k in 0..n {
                 let mut q = p.clone();
@@ -997,7 +1056,8 @@ impl Scenario for RxSim {
         if nb {
             // apply member `variant-1` to the feed sequence
             let pkts: Vec<Vec<u8>> = p.ops.iter().filter(|o| o.name == "feed").map(|o| o.get_h("hex").to_vec()).collect();
-            if let Some((mutated, fk, _desc)) = nbhd::member(&pkts, (variant - 1) as usize) {
+            let mem = if nbmode == 2 { nbhd::member_fields(&pkts, (variant - 1) as usize) } else { nbhd::member(&pkts, (variant - 1) as usize) };
+            if let Some((mutated, fk, _desc)) = mem {
                 let first_feed = p.ops.iter().position(|o| o.name == "feed").unwrap_or(0);
                 let mut others_before: Vec<Op> = p.ops[..first_feed].to_vec();
                 let others_after: Vec<Op> = p.ops.iter().skip(first_feed).filter(|o| o.name != "feed").cloned().collect();
@@ -1709,6 +1769,27 @@ pub mod gen {
         if idx == 2 || idx == 3 {
             let lab = if idx == 2 { Lab::L6([1, 2, 3, 4, 5, 6]) } else { Lab::L3([9, 8, 7]) };
             return directed_burst_across_label(&lab, rng.below(16));
+        }
+        // every value of the frag id / total length fields and a dense set of CRC values around a small base train
+        // (quick: one base train; thorough: one in 40000 runs)
+        if idx == 4 || (tier == Tier::Thorough && idx % 40_000 == 7) {
+            let mut table = std_table();
+            let fid = rng.below(256) as u8;
+            let lab = if rng.chance(1, 4) { Lab::ReUse } else { label(rng, false) };
+            let n = rng.usize_in(2, 3);
+            let len = rng.usize_in(n, 40);
+            let pdu = pdu_bytes(len, rng.next());
+            let exts: Vec<(u16, Vec<u8>)> = if rng.chance(1, 3) { vec![(0x0200 | rng.below(256) as u16, rng.bytes(2))] } else { vec![] };
+            let pkts = fragment(&pdu, fid, 0x0800, &lab, &exts, false, n, None);
+            let _ = &mut table;
+            let mut c = cfg(rng.usize_in(1, 3), 64, 64, 3, &table);
+            c.set_u("nbhd", 2);
+            let mut ops: Vec<Op> = vec![];
+            if lab == Lab::ReUse {
+                ops.push(feed(wire::serialise(&Desc { kind: Kind::Complete, lt: LT_3, frag_id: 0, total_len: 0, ptype: 0x0800, label: &[9, 9, 9], exts: &[], final_mandatory: false, payload: &[1, 2, 3], crc: 0 }, None), 0));
+            }
+            ops.extend(pkts.into_iter().map(|p| feed(p, 0)));
+            return Program { scenario: "rxsim", cfg: c, ops };
         }
         let mut table = std_table();
         // every 300th run (quick) / 150th (thorough): complete single-fault neighbourhood of a small base train
